@@ -114,6 +114,8 @@ def unit_dir(x, rng):
         return sps.coo_matrix(([1.0], ([P.row[k]], [P.col[k]])), shape=P.shape).asformat(x.format)
     if isinstance(x, np.ndarray) and x.ndim > 0:
         V = np.zeros(x.shape, dtype=x.dtype)
+        if x.size == 0:
+            return V
         V.flat[int(rng.integers(0, x.size))] = 1j if (is_complex(x) and rng.integers(0, 2)) else 1.0
         return V
     return gen_dir(x, rng)
@@ -203,7 +205,8 @@ def run_case(src, seed=0, only=None):
       REF      optional callable REF(m, xs, x0s) -> list of output values at xs with everything frozen that the property freezes at the
                evaluated point x0s; used instead of response() for the perturbed evaluations
       HISTORY  re-evaluate the first point at the end and compare the sensitivities                              [True]
-      POINTS   number of input points visited on the same module object (the later ones are x0 + 0.25*direction)  [1]
+      POINTS   number of input points visited on the same module object (the later ones are x0 + PSTEP*direction)  [1]
+      PSTEP    step to the next point [25*H0 for 'smooth'/'cstep', 0.25 otherwise]
       PRESET   also run sensitivity() onto a pre-set input sensitivity of the kind of the state (accumulation)      [True]
     """
     ns = {'np': np, 'pym': pym, 'sps': sps, 'DyadCarrier': DyadCarrier}
@@ -220,6 +223,7 @@ def run_case(src, seed=0, only=None):
     npoints = ns.get('POINTS', 1)
     preset = ns.get('PRESET', True)
     history = ns.get('HISTORY', True)
+    pstep = ns.get('PSTEP', 25 * h0 if mode in ('smooth', 'cstep') else 0.25)
     rng = np.random.default_rng(seed)
     fails = []
     ncase = 0
@@ -239,7 +243,7 @@ def run_case(src, seed=0, only=None):
 
     for point in range(npoints):
         if point > 0:
-            x0 = [perturb(x, gen_dir(x, rng, c), 0.25 * h0 / 1e-2 if mode in ('smooth', 'cstep') else 0.25) for x, c in zip(x0, vclass)]
+            x0 = [perturb(x, gen_dir(x, rng, c), pstep) for x, c in zip(x0, vclass)]
         try:
             y0 = evaluate(x0)
         except Exception as e:
